@@ -12,6 +12,7 @@ package main
 //                | qq:<a>   QUIC query on a's connection (opened on first use)
 //                | hc:<a>   open the HTTP client's TCP connection from source a
 //                | hq:<a>   HTTP POST over that connection, client address a (any v4/v6/v4-mapped) in the header
+//                | sl:<ms>  pause (kind admitglobal: the global bucket refills); reported as SL
 //   result: out=<o>,<o>,... [SLOW]     o = ANS | REFUSED | 503 | CLOSED | SCLOSED | ACCEPT | other diagnostic text,
 //           with "+fwd" appended when a query that was not answered reached the upstream, "-nofwd" when an
 //           answered one did not.
@@ -39,7 +40,11 @@ import (
 	"github.com/rs/zerolog"
 )
 
-func init() { register("admit", 2, runAdmit) }
+func init() {
+	register("admit", 2, runAdmit)
+	// round 4: the same scripts with a global limit and a pause (step sl:<ms>); judged by the property oracle only
+	register("admitglobal", 4, runAdmit)
+}
 
 type admitUpstream struct {
 	uc   *net.UDPConn
@@ -394,12 +399,21 @@ func runAdmit(id string, parts []string) string {
 		}
 
 		var outs []string
+		var slept time.Duration
 		t0 := time.Now()
 		for i, st := range strings.Split(f["steps"], ",") {
 			if st == "" {
 				continue
 			}
 			kind, as, _ := strings.Cut(st, ":")
+			if kind == "sl" {
+				// a pause (the global bucket refills); not part of the script's running time
+				d := time.Duration(hx.MustAtoi(as)) * time.Millisecond
+				time.Sleep(d)
+				slept += d
+				outs = append(outs, "SL")
+				continue
+			}
 			a, err := c15ParseAddr(as)
 			if err != nil {
 				return "HARNESS-ERROR " + err.Error()
@@ -436,7 +450,7 @@ func runAdmit(id string, parts []string) string {
 			}
 			outs = append(outs, o)
 		}
-		el := time.Since(t0)
+		el := time.Since(t0) - slept
 		res := "out=" + strings.Join(outs, ",")
 		if el > 800*time.Millisecond {
 			fmt.Fprintf(os.Stderr, "admit %s: script took %v\n", id, el)
